@@ -618,8 +618,10 @@ def jobs(tier):
     req = ['encoded', 'length_prefix', 'message_code', 'wire_layout', 'roundtrip', 'wire_framing', 'dispatch_class',
            'roundtrip_connection', 'real_codec_witness']
     # the shapes of a class are split over several jobs (about SHAPES_PER_JOB units of work each); heavy ones first
-    limits = {'timeout_s': 1200 if tier == 'quick' else 3000, 'solver_timeout_ms': 120000}   # wall-clock limits: generous, the
-    # queries take milliseconds; they only matter when the machine is heavily oversubscribed
+    # wall-clock limits per job (a job takes 2-3 s CPU on a tree where the property holds). On a tree where the layout is
+    # broken the decoder sees mis-framed symbolic bytes and the path tree of the list-bearing classes explodes: the job is then
+    # cut (reported as NOT-EXHAUSTED) after having reported the violations it found, instead of running for hours.
+    limits = {'timeout_s': 150 if tier == 'quick' else 600, 'solver_timeout_ms': 60000}
     for name in sorted(MESSAGES, key=lambda k: -_weight(MESSAGES[k]['fields'])):
         n = len(shapes_cached(name, MESSAGES[name]['fields'], p))
         parts = max(1, min(n, round(n * _weight(MESSAGES[name]['fields']) / 400)))
